@@ -95,7 +95,16 @@ class HasAccessibles(HasProperties):
                 # replace the bare value by the created accessible
                 setattr(cls, aname, aobj)
             else:
-                aobj.merge(merged_properties[aname])
+                properties = merged_properties[aname]
+                if cls.__dict__.get(aname) is not aobj:
+                    # aobj belongs to a base class or a mixin
+                    if aobj.mergedProperties == properties:
+                        continue  # merged with the same properties already: share it
+                    # the accessible of an other class must not be modified: merge into a copy
+                    aobj = aobj.copy()
+                    setattr(cls, aname, aobj)
+                aobj.mergedProperties = dict(properties)
+                aobj.merge(properties)
             accessibles[aname] = aobj
 
         # rebuild order:
